@@ -48,6 +48,7 @@ type stageResult struct {
 	Site  string `json:"site,omitempty"`  // innermost zenodb frame of a panic
 	Inner string `json:"inner,omitempty"` // innermost getlantern frame of a panic (may be a library)
 	Phase string `json:"phase,omitempty"` // "exec" when the panic happened while iterating a plan
+	N     int    `json:"n,omitempty"`     // size of what the stage produced: number of fields (fields, plan, cluster, query)
 }
 
 // thirdPartyEval says whether a panic came out of a goexpr expression while a
@@ -418,10 +419,22 @@ func countRows(db *zenodb.DB, q string, timeout time.Duration) (int, error) {
 }
 
 func iterate(src core.FlatRowSource, timeout time.Duration) error {
+	_, err := iterateN(src, timeout)
+	return err
+}
+
+// iterateN also reports the largest number of fields the plan announced.
+func iterateN(src core.FlatRowSource, timeout time.Duration) (int, error) {
 	ctx, cancel := context.WithTimeout(context.Background(), timeout)
 	defer cancel()
-	_, err := src.Iterate(ctx, core.FieldsIgnored, func(row *core.FlatRow) (bool, error) { return true, nil })
-	return err
+	n := 0
+	_, err := src.Iterate(ctx, func(fields core.Fields) error {
+		if len(fields) > n {
+			n = len(fields)
+		}
+		return nil
+	}, func(row *core.FlatRow) (bool, error) { return true, nil })
+	return n, err
 }
 
 // runPlans plans the query against the mock table, locally and as a cluster
@@ -433,6 +446,7 @@ func runPlans(sqlString string, timeout time.Duration) (stageResult, stageResult
 	e := &struct{ timeout time.Duration }{timeout}
 	o := &sqlOutcome{}
 	evalOK := !evaluatesLua(sqlString)
+	nPlan, nCluster := 0, 0
 	o.Plan = guardedPh(e.timeout, func(phase *string) error {
 		plan, err := planner.Plan(sqlString, mockOpts(nil))
 		if err != nil {
@@ -443,8 +457,11 @@ func runPlans(sqlString string, timeout time.Duration) (stageResult, stageResult
 			return nil
 		}
 		*phase = "exec"
-		return iterate(plan, e.timeout/2)
+		n, err := iterateN(plan, e.timeout/2)
+		nPlan = n
+		return err
 	})
+	o.Plan.N = nPlan
 	if o.Plan.Class == clsHang {
 		return o.Plan, stageResult{Class: clsSkip}
 	}
@@ -458,8 +475,11 @@ func runPlans(sqlString string, timeout time.Duration) (stageResult, stageResult
 			return nil
 		}
 		*phase = "exec"
-		return iterate(plan, e.timeout/2)
+		n, err := iterateN(plan, e.timeout/2)
+		nCluster = n
+		return err
 	})
+	o.Cluster.N = nCluster
 	return o.Plan, o.Cluster
 }
 
@@ -508,10 +528,14 @@ func likeServerProcess() {
 	})
 }
 
-// runPure executes the stages that need no database for one SQL string.
-func runPure(sqlString string) *sqlOutcome {
+// runPure executes the stages that need no database for one SQL string.  Like
+// everything else that runs zenodb code it is called in the child process: a
+// stage that does not return leaves a goroutine spinning (and possibly
+// allocating) that only the death of the process stops.
+func runPure(sqlString string, mult time.Duration) *sqlOutcome {
 	likeServerProcess()
-	e := &struct{ timeout time.Duration }{pureTimeout}
+	e := &struct{ timeout time.Duration }{mult * pureTimeout}
+	parseTimeout := mult * parseTimeout
 	skip := stageResult{Class: clsSkip}
 	o := &sqlOutcome{TableFor: skip, Fields: skip, Plan: skip, Cluster: skip, Query: skip}
 	var q *sql.Query
@@ -534,10 +558,13 @@ func runPure(sqlString string) *sqlOutcome {
 		return o
 	}
 	if o.Parse.Class == clsOK && q != nil && q.Fields != nil {
+		nFields := 0
 		o.Fields = guarded(e.timeout, func() error {
-			_, err := q.Fields.Get(mockFields())
+			fields, err := q.Fields.Get(mockFields())
+			nFields = len(fields)
 			return err
 		})
+		o.Fields.N = nFields
 	}
 	return o
 }
